@@ -10,6 +10,7 @@ import (
 	"os"
 	"path"
 	"path/filepath"
+	"sort"
 	"strings"
 	"sync"
 	"syscall"
@@ -321,6 +322,9 @@ func (l *localFS) KeysPrefix(_ context.Context, token, prefix, delimiter string,
 		if err != nil {
 			return nil, "", err
 		}
+		// Walk visits directories component by component, which is not the lexicographic order of keys
+		// whenever a name holds a character sorting before the path separator (e.g. "a-b/x" vs "a/b")
+		sort.Strings(matches)
 		if delimiter != "" {
 			// dedupe truncated matches
 			deduped := make([]string, 0, len(matches))
